@@ -6,7 +6,7 @@
    (do (ext frt.Println ((str "tab\there \"quoted\" back\\slash"))))
    (do (ext frt.Printf1 ((str "100%% %s\n") (str "sure"))))
    (do (ext frt.Printf1 ((str "%d\n") (ext strings.Length ((str "w\xc3\xa9"))))))
-   (let e (interp))
+   (let e (str ""))
    (do (ext frt.Printf1 ((str "[%s]\n") (var e))))
   )
   (ext frt.Println ((ext frt.Sprintf1 ((str "%v") (bool false)))))))
